@@ -241,6 +241,11 @@ pub fn run_history(g: u64, steps: &[Step], prune: u64, rep: &mut Report) {
 
 /// `supply`: the conservation oracle of C02 after every accepted block
 pub fn run_history_with(g: u64, steps: &[Step], prune: u64, supply: bool, rep: &mut Report) {
+    run_history_observed(g, steps, prune, supply, rep, &mut |_| {})
+}
+
+/// `accepted`: called with the bytes of every block the producer's node adopted, in order
+pub fn run_history_observed(g: u64, steps: &[Step], prune: u64, supply: bool, rep: &mut Report, accepted: &mut dyn FnMut(&[u8])) {
     let hb = 5000u64;
     let mut p = match Prod::new_with(g, hb, 0, false, prune) {
         Ok(p) => p,
@@ -300,6 +305,9 @@ pub fn run_history_with(g: u64, steps: &[Step], prune: u64, supply: bool, rep: &
                     set_chain(&mut p, chain);
                     blocks.push(decode_block(&m));
                     blocks.push(decode_block(&m2));
+                    accepted(&l);
+                    accepted(&m);
+                    accepted(&m2);
                     rep.outcome("fork-across-history");
                 }
                 Err(_) => {
@@ -416,6 +424,7 @@ pub fn run_history_with(g: u64, steps: &[Step], prune: u64, supply: bool, rep: &
                     }
                 }
                 blocks.push(blk);
+                accepted(&bytes);
             }
             Produced::NoBlock => {
                 rep.outcome("no-block");
